@@ -42,7 +42,15 @@ RULE = ("cases come from random.Random(VERIF_SEED). samplers: dense and sparse t
         "shape / mixed, each compared with a new object and with the object's attributes before the solve; 2-3 solves "
         "on one stochastic solver with the DEFAULT sampler (sampler=None, directly and through gcp_opt) over solver "
         "class x dense / sparse x (same shape other pattern | same pattern other values | other shape), every "
-        "function / gradient sample checked against the data of the current solve. A case is non-trivial when the implementation accepts it and the sample / run is non-empty "
+        "function / gradient sample checked against the data of the current solve. samplers.zeros(..., with_replacement="
+        "False) called directly (requests up to and above the number of zeros and around the 'need too many' limit, "
+        "pools of 7..97 draws so that drawn rows repeat, come unsorted and hit nonzeros); direct solve() with starts "
+        "whose weights are not all one (both signs, zero); gcp_setup: every objective x {dense float, dense integer "
+        "array, sparse with shuffled stored order, no data} x 13 data classes (binary mixed / all one / all zero, 0-2, "
+        "0-1-1/2, counts with and without zeros, negative integers, positive <= 1, positive > 1, mixed, non-negative "
+        "with an exact zero, negative reals) x parameter given / missing, through setup and through gcp_opt; "
+        "gcp_opt_inits: init = 'random' (two seeds) | list | tuple | ktensor | ktensor with other weights | 11 ill-"
+        "formed guesses, x L-BFGS-B / SGD / Adam / Adagrad x dense / sparse admissible data of 7 losses. A case is non-trivial when the implementation accepts it and the sample / run is non-empty "
         "(at least one sample, at least one completed epoch); distinct = distinct case hash")
 ASSUMPTIONS = [
     "np.random.uniform(0,1,size) returns size numbers in [0,1) and np.random.choice(n,size) size integers below n "
@@ -58,6 +66,16 @@ ASSUMPTIONS = [
     "NumPy broadcasting of extent-1 axes between stale Adam moments and gradients is not modelled (cannot occur "
     "after e9e4a44: the moments are rebuilt at every solve)",
     "solver hyper-parameters with 1 - beta**t = 0 or a zero first Adagrad gradient (division by zero) are not generated",
+    "zeros(with_replacement=False): the number of rows asked from the generator (a coupon-collector estimate with a "
+    "logarithm) is not in the Lean model; it is recomputed with math.log and compared unless a ceiling sits within "
+    "1e-9 of an integer (tag need-rounding)",
+    "a start with weights other than one handed to solve() directly: the estimates (an oracle here, C12's subject) are "
+    "those of the factor matrices alone, as the code computes them with lambda_check=False; the trace is compared "
+    "with that objective",
+    "gcp_setup: the domain of a loss is read from its documentation (binary = all entries 0 or 1, count = all entries "
+    "non-negative integers, non-negative = all entries >= 0; entries of a sparse tensor include the ones not stored); "
+    "stored explicit zeros, NaN and infinities are not generated; gcp_opt on 1-way tensors is not generated (raises "
+    "IndexError inside the estimate)",
 ]
 EXHAUSTIVE = {"quick": False, "thorough": False}
 
@@ -2259,5 +2277,306 @@ class GcpSetup(Family):
                 yield {**c, "shape": [n], "entries": c["entries"][:n], "order": [k for k in c["order"] if k < n]}
 
 
+# ----------------------------------------------------------------------------
+# gcp_opt: the three ways of giving the starting guess ("random", a list of factor matrices, a ktensor)
+# ----------------------------------------------------------------------------
+INIT_OBJECTIVES = {"gaussian": "GAUSSIAN", "poisson": "POISSON", "poisson_log": "POISSON_LOG",
+                   "bernoulli_odds": "BERNOULLI_ODDS", "bernoulli_logit": "BERNOULLI_LOGIT", "rayleigh": "RAYLEIGH",
+                   "gamma": "GAMMA"}
+VALID_INITS = ["random", "random", "random", "list", "tuple", "ktensor", "ktensor-weights"]
+BAD_INITS = ["wrong-shape-ktensor", "wrong-rank-ktensor", "wrong-order-ktensor", "wrong-shape-list", "wrong-rank-list",
+             "ragged-list", "short-list", "other-string", "number", "none", "array"]
+
+
+def inits_problem(c):
+    """Admissible data for the objective of a gcp_opt_inits case (plain NumPy array + pyttb object)."""
+    r = np.random.RandomState(c["dseed"])
+    shape = tuple(c["shape"])
+    obj = c["objective"]
+    if obj in ("poisson", "poisson_log"):
+        arr = r.poisson(1.5, size=shape).astype(float)
+    elif obj in ("bernoulli_odds", "bernoulli_logit"):
+        arr = (r.uniform(size=shape) < 0.5).astype(float)
+    elif obj in ("rayleigh", "gamma"):
+        arr = r.uniform(0.2, 2.0, size=shape)
+    else:
+        arr = r.normal(size=shape)
+    if c["rep"] == "sparse":
+        if obj == "gaussian":
+            arr = arr * (r.uniform(size=shape) < 0.5)
+        arr.flat[0] = 1.0                 # neither empty nor full: the default samplers need both kinds of cells
+        arr.flat[arr.size - 1] = 0.0
+        return arr, ttb.tensor(arr.copy()).to_sptensor()
+    return arr, ttb.tensor(arr.copy())
+
+
+def make_init(c, kind=None):
+    """The `init` argument of a case (a fresh object at every call) and, for the valid kinds, its weights and
+    factor matrices as plain arrays."""
+    kind = kind or c["init"]
+    r = np.random.RandomState(c["iseed"])
+    shape, rank = list(c["shape"]), c["rank"]
+    F = [0.1 + r.uniform(size=(s, rank)) for s in shape]
+    w = np.ones(rank)
+    if kind == "random":
+        return "random", None
+    if kind == "list":
+        return [f.copy() for f in F], (w, F)
+    if kind == "tuple":
+        return tuple(f.copy() for f in F), (w, F)
+    if kind == "ktensor":
+        return ttb.ktensor([f.copy() for f in F]), (w, F)
+    if kind == "ktensor-weights":
+        w = np.array([float(Fraction(x)) for x in c["weights"]])
+        return ttb.ktensor([f.copy() for f in F], w.copy()), (w, F)
+    bigger = [0.1 + r.uniform(size=(s + (1 if k == len(shape) - 1 else 0), rank)) for k, s in enumerate(shape)]
+    wider = [0.1 + r.uniform(size=(s, rank + 1)) for s in shape]
+    if kind == "wrong-shape-ktensor":
+        return ttb.ktensor(bigger), None
+    if kind == "wrong-rank-ktensor":
+        return ttb.ktensor(wider), None
+    if kind == "wrong-order-ktensor":
+        return ttb.ktensor([f.copy() for f in F[:-1]]), None
+    if kind == "wrong-shape-list":
+        return bigger, None
+    if kind == "wrong-rank-list":
+        return wider, None
+    if kind == "ragged-list":
+        return [f.copy() for f in F[:-1]] + [wider[-1]], None
+    if kind == "short-list":
+        return [f.copy() for f in F[:-1]], None
+    if kind == "other-string":
+        return c.get("string", "rand"), None
+    if kind == "number":
+        return 3, None
+    if kind == "none":
+        return None, None
+    if kind == "array":
+        return F[0].copy(), None
+    raise ValueError(kind)
+
+
+def init_state(init):
+    if isinstance(init, ttb.ktensor):
+        return ktensor_state(init)
+    if isinstance(init, (list, tuple)):
+        return [np.array(f, dtype=float).copy() for f in init]
+    return []
+
+
+class RecordingUniform:
+    """np.random.uniform, passed through and written down (arguments and what came back)."""
+
+    def __init__(self):
+        self.real = np.random.uniform
+        self.calls = []
+
+    def __call__(self, low=0.0, high=1.0, size=None):
+        out = self.real(low, high, size)
+        self.calls.append((low, high, size, np.array(out, dtype=float).copy()))
+        return out
+
+
+class GcpOptInits(Family):
+    """gcp_opt with init="random" (seeded), a list / tuple of factor matrices, a ktensor (unit and other weights)
+    and ill-formed guesses, for L-BFGS-B and the three stochastic solvers on dense and sparse admissible data of
+    several losses.  A well-formed request is answered; the starting model returned has unit weights and denotes
+    the tensor the guess denotes (random: the drawn uniform(0,1) factors scaled to the norm of the data); the same
+    seed gives the same start and the same result; a list start equals the same start given as a ktensor; the guess
+    and the data are left as they were; an ill-formed guess is refused.  Reference: plain NumPy."""
+    name = "gcp_opt_inits"
+    theorems = ("C13_lbfgsb_not_worse", "C13_lower_bound_solve")
+
+    def gen(self, rng, tier):
+        out = []
+        n = 40 if tier == "quick" else 260
+        combos = [(rep, solver) for rep in ("dense", "sparse") for solver in ("lbfgsb", "sgd", "adam", "adagrad")
+                  if not (rep == "sparse" and solver == "lbfgsb")]
+        k = 0
+        for i in range(n):
+            rep, solver = combos[i % len(combos)]
+            obj = rng.choice(["gaussian", "gaussian", "poisson", "poisson_log", "bernoulli_odds", "bernoulli_logit"]
+                             + (["rayleigh", "gamma"] if rep == "dense" else []))
+            shape = rng.sample([2, 3, 4, 5], rng.choice([2, 3])) if rng.random() < 0.8 else \
+                rng.choice([[3, 3], [2, 1, 3], [4, 2, 2], [1, 4]])
+            if rep == "sparse" and gen.numel(shape) < 4:
+                shape = [3, 2]
+            rank = rng.randint(1, 3)
+            c = {"rep": rep, "solver": solver, "objective": obj, "shape": shape, "rank": rank,
+                 "dseed": rng.randrange(10 ** 6), "iseed": rng.randrange(10 ** 6), "seed": rng.randrange(10 ** 6),
+                 "seed2": rng.randrange(10 ** 6), "init": VALID_INITS[k % len(VALID_INITS)]}
+            k += 1
+            if c["init"] == "ktensor-weights":
+                c["weights"] = gen_weights(rng, rank, 0.0)
+                if obj not in ("gaussian", "poisson_log", "bernoulli_logit") or "0" in c["weights"]:
+                    # a guess is rescaled to unit weights: keep it inside the bound of the loss, and non-degenerate
+                    c["weights"] = [str(abs(Fraction(x)) or Fraction(3, 2)) for x in c["weights"]]
+            out.append(c)
+        # ill-formed guesses (and the one ill-formed pairing of data and optimiser), every kind in every run
+        for j, bad in enumerate(BAD_INITS * (1 if tier == "quick" else 4)):
+            rep, solver = combos[j % len(combos)]
+            shape = rng.sample([2, 3, 4], rng.choice([2, 3]))
+            if rep == "sparse" and gen.numel(shape) < 4:
+                shape = [3, 2]
+            out.append({"rep": rep, "solver": solver, "objective": "gaussian", "shape": shape, "rank": rng.randint(1, 2),
+                        "dseed": rng.randrange(10 ** 6), "iseed": rng.randrange(10 ** 6), "seed": rng.randrange(10 ** 6),
+                        "seed2": 0, "init": bad, "string": rng.choice(["rand", "Random", "nvecs", "", "random "])})
+        for init in ("random", "list", "ktensor"):
+            out.append({"rep": "sparse", "solver": "lbfgsb", "objective": "gaussian", "shape": [3, 2, 2], "rank": 2,
+                        "dseed": rng.randrange(10 ** 6), "iseed": rng.randrange(10 ** 6), "seed": rng.randrange(10 ** 6),
+                        "seed2": 0, "init": init, "bad_pairing": True})
+        return out
+
+    @staticmethod
+    def _one(c, init, seed):
+        """One gcp_opt call on fresh data / optimiser objects under a seed; everything recomputed in NumPy."""
+        arr, data = inits_problem(c)
+        if c["solver"] == "lbfgsb":
+            opt = O.LBFGSB(maxiter=3)
+        else:
+            opt = CLS[c["solver"]](rate=1e-3, epoch_iters=2, max_iters=2, printitn=0)
+        rec = RecordingUniform()
+        before = init_state(init)
+        state = np.random.get_state()
+        np.random.seed(seed)
+        try:
+            with patched(np.random, "uniform", rec), quiet():
+                m, m0, info = ttb.gcp_opt(data, c["rank"], Objectives[INIT_OBJECTIVES[c["objective"]]], opt, init=init,
+                                          printitn=0)
+        finally:
+            np.random.set_state(state)
+        now = np.asarray(data.full().data if isinstance(data, ttb.sptensor) else data.data, dtype=float)
+        return {"m0": ktensor_state(m0), "m": ktensor_state(m), "draws": rec.calls, "arr": arr,
+                "data_changed": not np.array_equal(now, arr),
+                "init_changed": not same_state(before, init_state(init)),
+                "aliased": isinstance(init, ttb.ktensor) and (m0 is init or any(
+                    a is b for a in m0.factor_matrices for b in init.factor_matrices)),
+                "final": float(info["final_f"]) if "final_f" in info else None}
+
+    def _run(self, c):
+        kind = c["init"]
+        if kind in BAD_INITS or c.get("bad_pairing"):
+            init, _ = make_init(c)
+            return {"main": call(self._one, c, init, c["seed"])}
+        runs = {}
+        init, parts = make_init(c)
+        runs["main"] = call(self._one, c, init, c["seed"])
+        if "ok" not in runs["main"]:
+            return runs
+        runs["again"] = call(self._one, c, make_init(c)[0], c["seed"])
+        if kind == "random":
+            runs["other"] = call(self._one, c, "random", c["seed2"])
+        elif kind in ("list", "tuple"):
+            runs["twin"] = call(self._one, c, make_init(c, "ktensor")[0], c["seed"])
+        elif kind == "ktensor":
+            runs["twin"] = call(self._one, c, make_init(c, "list")[0], c["seed"])
+        runs["parts"] = parts
+        return runs
+
+    def evaluate(self, cases):
+        return [self._judge(c, self._run(c)) for c in cases]
+
+    @staticmethod
+    def _judge(c, runs):
+        kind, obj = c["init"], c["objective"]
+        tags = ["init=" + kind, "rep=" + c["rep"], "solver=" + c["solver"], obj, f"N{len(c['shape'])}", f"R{c['rank']}"]
+        main = runs["main"]
+        if kind in BAD_INITS or c.get("bad_pairing"):
+            tags.append("ill-formed")
+            if "ok" in main:
+                return Verdict("violation", f"gcp_opt answered an ill-formed request (init: {kind}"
+                               f"{', sparse data with L-BFGS-B' if c.get('bad_pairing') else ''})", None, None, None, tags)
+            return Verdict("ok", "", main, None, None, tags + ["reject"], False)
+        if "ok" not in main:
+            return Verdict("violation", f"gcp_opt(init={kind}) on admissible {c['rep']} {obj} data with {c['solver']} raised "
+                           f"{main.get('exc')}: {main.get('msg')}", main, None, None, tags)
+        o = main["ok"]
+        shape, rank = list(c["shape"]), c["rank"]
+        arr = o["arr"]
+        w0, F0 = o["m0"][0], o["m0"][1:]
+        w1, F1 = o["m"][0], o["m"][1:]
+        fh, _gh, lb = setup(Objectives[INIT_OBJECTIVES[obj]], None)
+
+        def bad(what):
+            return Verdict("violation", f"gcp_opt(init={kind}, {c['solver']}, {c['rep']} {obj}): {what}",
+                           {"m0_weights": tolist(w0), "m0": [tolist(x) for x in F0]}, None, None, tags)
+        # the starting model handed back
+        if [int(f.shape[0]) for f in F0] != shape or any(f.shape[1] != rank for f in F0) or len(w0) != rank:
+            return bad(f"the starting model has shape {[f.shape for f in F0]}, asked for {shape} with {rank} components")
+        if not all(np.isfinite(f).all() for f in F0) or not np.isfinite(w0).all():
+            return bad("the starting model is not finite")
+        if not np.array_equal(w0, np.ones(rank)):
+            return bad(f"the starting model has weights {tolist(w0)} (the solvers work on unit weights)")
+        full0 = np_full(w0, F0)
+        scale = max(1.0, float(np.abs(full0).max()))
+        if kind == "random":
+            d = o["draws"][: len(shape)]
+            if len(d) < len(shape):
+                return bad(f"{len(d)} uniform draws for a {len(shape)}-way guess")
+            for n_, (low, high, size, _out) in enumerate(d):
+                if (low, high) != (0, 1) or tuple(np.atleast_1d(size).tolist()) != (shape[n_], rank):
+                    return bad(f"factor {n_} of the random guess drawn as uniform({low}, {high}, {size}); "
+                               f"uniform(0, 1, ({shape[n_]}, {rank})) expected")
+            U = [x[3] for x in d]
+            fullU = np_full(np.ones(rank), U)
+            nx, nu = float(np.sqrt(np.sum(arr ** 2))), float(np.sqrt(np.sum(fullU ** 2)))
+            ref = fullU * (nx / nu)
+            if not np.allclose(full0, ref, rtol=1e-9, atol=1e-12 * scale):
+                return bad("the random starting model is not the drawn uniform(0,1) factors scaled to the norm of the data")
+            if any((f < 0).any() for f in F0):
+                return bad("the random starting model has negative factor entries")
+        else:
+            w, F = runs["parts"]
+            if not np.allclose(full0, np_full(w, F), rtol=1e-9, atol=1e-12 * scale):
+                return bad("the starting model does not denote the tensor the guess denotes")
+        if o["init_changed"]:
+            return bad("the guess handed in was modified")
+        if o["aliased"]:
+            return bad("the starting model handed back shares its arrays with the guess handed in")
+        if o["data_changed"]:
+            return bad("the data tensor was modified")
+        # the result
+        if [int(f.shape[0]) for f in F1] != shape or any(f.shape[1] != rank for f in F1):
+            return bad("the result has another shape / rank than asked for")
+        if not all(np.isfinite(f).all() for f in F1):
+            return bad("the result is not finite")
+        if np.isfinite(lb) and any((f < lb).any() for f in F1):
+            return bad(f"a factor entry of the result is below the lower bound {lb}")
+        feasible = not np.isfinite(lb) or all((f >= lb).all() for f in F0)
+        if c["solver"] == "lbfgsb" and feasible:
+            f0, f1 = np_objective(fh, arr, w0, F0), np_objective(fh, arr, w1, F1)
+            if not (f1 <= f0 or close(f1, f0, 1e-12)):
+                return bad(f"L-BFGS-B result has objective {f1} > start {f0}")
+            if o["final"] is not None and not close(o["final"], f1, 1e-10):
+                return bad(f"final_f = {o['final']} is not the objective of the result ({f1})")
+        # same request, same seed: same start, same result
+        for other, label in (("again", "the same request under the same seed"),
+                             ("twin", "the same guess given as a " + ("ktensor" if kind != "ktensor" else "list"))):
+            if other not in runs:
+                continue
+            r2 = runs[other]
+            if "ok" not in r2:
+                return bad(f"{label} raised {r2.get('exc')}: {r2.get('msg')}")
+            if not same_state(o["m0"], r2["ok"]["m0"]):
+                return bad(f"{label} starts from another model")
+            if not same_state(o["m"], r2["ok"]["m"]):
+                return bad(f"{label} gives another result")
+        if kind == "random":
+            r3 = runs["other"]
+            if "ok" not in r3:
+                return bad(f"the same request under another seed raised {r3.get('exc')}: {r3.get('msg')}")
+            tags.append("other-seed-other-start" if not same_state(o["m0"], r3["ok"]["m0"]) else "other-seed-same-start")
+        if not feasible:
+            tags.append("start-below-bound")
+        return Verdict("ok", "", {"m0_weights": tolist(w0)}, None, None, tags, True)
+
+    def shrink(self, case):
+        c = case
+        if c["rank"] > 1:
+            yield {**c, "rank": 1, **({"weights": c["weights"][:1]} if c.get("weights") else {})}
+        if len(c["shape"]) > 2:
+            yield {**c, "shape": c["shape"][:2]}
+
+
 def families():
-    return [Samplers(), Plans(), SolverScripted(), SolverReal(), Lbfgsb(), GcpSetup()]
+    return [Samplers(), Plans(), SolverScripted(), SolverReal(), Lbfgsb(), GcpSetup(), GcpOptInits()]
